@@ -718,6 +718,15 @@ func (ex *Exec) finishCall(st *State, pc *preparedCall, k func(*State, []Val)) {
 			return
 		}
 		fc := ex.cs.Funcs[key]
+		// a contract attached to the STATIC receiver type (e.g. ReadObjectCloser.Close) takes
+		// precedence over the one of the interface that declares the method (io.Closer.Close)
+		if pc.recvExp != nil {
+			if n := namedOf(ex.typeOf(pc.recvExp)); n != nil && n.Obj().Pkg() != nil {
+				if sfc := ex.cs.Funcs[n.Obj().Pkg().Path()+"."+n.Obj().Name()+"."+pc.fn.Name()]; sfc != nil {
+					fc = sfc
+				}
+			}
+		}
 		if fc != nil {
 			if fc.Inline {
 				ex.inlineCall(st, pc, k)
@@ -785,11 +794,13 @@ func (ex *Exec) unknownCall(st *State, pc *preparedCall, what string, k func(*St
 		ex.heapHavocAll(st)
 		ex.havocEscaped(st, pc)
 		res := ex.resultVals(st, pc.sig, "callback")
-		if g, ok := ex.cs.Ghost["fail"]; ok {
-			oldF := ex.ghostGet(st, g)
-			ex.ghostHavoc(st, "fail")
-			newF := ex.ghostGet(st, g)
-			st.assume(app("=", newF.T, or(oldF.T, not(eq(res[len(res)-1].T, "0")))))
+		for _, gn := range []string{"fail", "wfail"} {
+			if g, ok := ex.cs.Ghost[gn]; ok {
+				oldF := ex.ghostGet(st, g)
+				ex.ghostHavoc(st, gn)
+				newF := ex.ghostGet(st, g)
+				st.assume(app("=", newF.T, or(oldF.T, not(eq(res[len(res)-1].T, "0")))))
+			}
 		}
 		k(st, res)
 		return
